@@ -6,5 +6,10 @@ pub type Result<T, E = DaachorseError> = core::result::Result<T, E>;
 impl DaachorseError {
     pub fn invalid_argument(arg: &'static str, op: &'static str, value: u32) -> (r: Self) ensures r is InvalidArgument { Self::InvalidArgument }
     pub fn automaton_scale(arg: &'static str, max_value: u32) -> (r: Self) ensures r is AutomatonScale { Self::AutomatonScale }
+    pub fn duplicate_pattern(pattern: alloc::string::String) -> (r: Self) ensures r is DuplicatePattern { Self::DuplicatePattern }
     pub fn invalid_conversion(arg: &'static str, target: &'static str) -> (r: Self) ensures r is InvalidConversion { Self::InvalidConversion }
 }
+
+// R11: `format!("{pattern:?}")` (only used to build an error message) is replaced by an arbitrary string
+#[verifier::external_body]
+pub fn verif_opaque_string() -> (r: alloc::string::String) { alloc::string::String::new() }
